@@ -58,6 +58,8 @@ SPLINE_SY = {
     # the same function as 'straddle-top' with its knots listed from the top
     # down (today refused as not strictly increasing)
     'descending': ([23.0, 21.25, 18.5, 12.0, 5.0], [0.6, 0.55, 0.3, 0.35, 0.2]),
+    # whole numbers given as integers, as a hand-written YAML file has them
+    'integer-knots': ([0, 10, 20, 30, 40], [0.2, 0.3, 0.25, 0.5, 0.6]),
     'twelve-knots': ([-60.0 + 10.0 * i for i in range(12)],
                      [0.11 + 0.05 * i + 0.02 * (i % 3) for i in range(12)]),
 }
@@ -72,6 +74,8 @@ SPLINE_T = {
                     7.4421234),
     'five-knots': ([-50.0, 0.0, 15.0, 25.0, 70.0],
                    [0.02, 0.5, 3.0, 40.0, 900.0], 0.25),
+    # integers throughout
+    'integer': ([-50, 0, 20, 80], [1, 5, 40, 900], 2),
 }
 PEATCLSM_SY = {
     'published': dict(sd=0.162, theta_s=0.88, b=7.4, psi_s=-0.024),
